@@ -324,6 +324,17 @@ def f_build(hist, max_stack):
 
 
 def f_canon(f):
+    """state key of the facade search: the generic heap fingerprint of the instance (every attribute reachable
+    from it, so state a refactoring adds - e.g. a cached flag on a parser object - is part of the key) plus the
+    saved rule sets of the open reset_rules blocks"""
+    from .. import heapwalk
+
+    fp = heapwalk.fingerprint([f.md], with_modules=False)[0]
+    stack = tuple(json.dumps(s, sort_keys=True) for _cm, s in f.stack)
+    return (fp, stack)
+
+
+def f_canon_fields(f):
     md = f.md
     parts = []
     for ruler in (md.core.ruler, md.block.ruler, md.inline.ruler, md.inline.ruler2):
@@ -369,11 +380,21 @@ def f_invariant(f):
     return None
 
 
-def bfs_facade(max_stack, max_depth, quick, acc):
+def bfs_facade(max_stack, max_depth, quick, acc, root=None):
+    """root: index of the first operation (the search is split by first operation so that it runs in parallel;
+    the sub-searches overlap, which costs time but loses nothing)"""
     ops = f_ops(quick)
-    f0 = f_build([], max_stack)
-    seen = {f_canon(f0): []}
-    frontier = collections.deque([[]])
+    start = [] if root is None else [ops[root]]
+    if root is not None and f_build([], max_stack).apply(ops[root], max_stack) == "skip":
+        return
+    f0 = f_build(start, max_stack)
+    seen = {f_canon(f0): list(start)}
+    frontier = collections.deque([list(start)])
+    if root is not None:
+        err = f_invariant(f_build(start, max_stack))
+        if err:
+            acc.violation("facade", err.split(":")[0][:60] if "chain" in err else err[:60],
+                          {"history": start, "max_stack": max_stack}, err)
     trans = 0
     capped = 0
     maxdepth = 0
@@ -424,12 +445,19 @@ def bounds(tier):
     return {"ruler_ops": len(OPS), "names": NAMES, "alts": ALTS, "chains": CHAINS, "max_rules": 4 if th else 3,
             "starts": ["empty", START3], "fixpoint": True,
             "facade_ops": len(f_ops(not th)), "facade_reset_rules_nesting": 2 if th else 1,
-            "facade_depth_cap": 8 if th else 6}
+            "facade_depth_cap": 6 if th else 5,
+            "facade_split": "one sub-search per first operation (overlapping)" if th else "single search"}
 
 
 def shards(tier):
     th = tier == "thorough"
-    return [("ruler", 4 if th else 3, "empty"), ("ruler", 3, "start3"), ("facade", 2 if th else 1, 8 if th else 6, not th)]
+    sh = [("ruler", 4 if th else 3, "empty"), ("ruler", 3, "start3")]
+    if th:
+        for r in range(len(f_ops(False))):
+            sh.append(("facade", 2, 6, False, r))
+    else:
+        sh.append(("facade", 1, 5, True, None))
+    return sh
 
 
 def run_shard(sh, acc):
@@ -437,8 +465,8 @@ def run_shard(sh, acc):
         _, maxr, start = sh
         bfs_ruler(maxr, [] if start == "empty" else START3, acc, "ruler-" + start)
     else:
-        _, ms, mdp, quick = sh
-        bfs_facade(ms, mdp, quick, acc)
+        _, ms, mdp, quick, root = sh
+        bfs_facade(ms, mdp, quick, acc, root)
 
 
 def check_case(case, acc):
